@@ -147,40 +147,43 @@ class InterpreterAnalyzer(ASTTemplate):
         results = {}
         invalid_dataset_outputs = []
         invalid_scalar_outputs = []
-        for child in node.children:
-            if isinstance(child, (AST.Assignment, AST.PersistentAssignment)):
-                vtlengine.Exceptions.dataset_output = child.left.value  # type: ignore[attr-defined]
-            if not isinstance(
-                child,
-                (AST.HRuleset, AST.DPRuleset, AST.Operator, AST.ViralPropagationDef),
-            ) and not isinstance(child, (AST.Assignment, AST.PersistentAssignment)):
-                raise SemanticError("1-2-5")
-            result = self.visit(child)
-            if isinstance(result, Dataset) and result.name in self.datasets_inputs:
-                invalid_dataset_outputs.append(result.name)
-            if isinstance(result, Scalar) and result.name in self.scalars_inputs:
-                invalid_scalar_outputs.append(result.name)
+        try:
+            for child in node.children:
+                if isinstance(child, (AST.Assignment, AST.PersistentAssignment)):
+                    vtlengine.Exceptions.dataset_output = child.left.value  # type: ignore[attr-defined]
+                if not isinstance(
+                    child,
+                    (AST.HRuleset, AST.DPRuleset, AST.Operator, AST.ViralPropagationDef),
+                ) and not isinstance(child, (AST.Assignment, AST.PersistentAssignment)):
+                    raise SemanticError("1-2-5")
+                result = self.visit(child)
+                if isinstance(result, Dataset) and result.name in self.datasets_inputs:
+                    invalid_dataset_outputs.append(result.name)
+                if isinstance(result, Scalar) and result.name in self.scalars_inputs:
+                    invalid_scalar_outputs.append(result.name)
 
-            self.is_from_join = False
-            VirtualCounter.reset()
+                self.is_from_join = False
+                VirtualCounter.reset()
 
-            if result is None:
-                continue
+                if result is None:
+                    continue
 
-            if isinstance(result, Dataset):
-                # Every viral attribute must declare a viral propagation rule (issue #877).
-                vp_registry = get_current_registry()
-                for viral_comp in result.get_viral_attributes():
-                    if vp_registry.rule_for(viral_comp) is None:
-                        raise SemanticError("1-3-3-6", name=viral_comp.name)
+                if isinstance(result, Dataset):
+                    # Every viral attribute must declare a viral propagation rule (issue #877).
+                    vp_registry = get_current_registry()
+                    for viral_comp in result.get_viral_attributes():
+                        if vp_registry.rule_for(viral_comp) is None:
+                            raise SemanticError("1-3-3-6", name=viral_comp.name)
 
-            vtlengine.Exceptions.dataset_output = None
-            self.datasets[result.name] = copy(result)
-            results[result.name] = result
-            if isinstance(result, Scalar):
-                if self.scalars is None:
-                    self.scalars = {}
-                self.scalars[result.name] = copy(result)
+                vtlengine.Exceptions.dataset_output = None
+                self.datasets[result.name] = copy(result)
+                results[result.name] = result
+                if isinstance(result, Scalar):
+                    if self.scalars is None:
+                        self.scalars = {}
+                    self.scalars[result.name] = copy(result)
+        finally:
+            vtlengine.Exceptions.dataset_output = None  # type: ignore[attr-defined]
         if invalid_dataset_outputs:
             raise SemanticError("0-1-2-8", names=", ".join(invalid_dataset_outputs))
         if invalid_scalar_outputs:
